@@ -393,7 +393,7 @@ func (f *Frame) applyContract(fc *FuncContract, name string, fn *ssa.Function, s
 				e.assume(f.pc, env.evalBool(cl.Expr))
 			} else if !f.dry {
 				for _, g := range env.evalSplit(cl.Expr) {
-					e.oblige("pre", short+"."+cl.Label, f.pc, g, fmt.Sprintf("precondition of %s: %s", name, cl.Src), pos, nil)
+					e.oblige("pre", short+"."+cl.Label, f.pc, g, fmt.Sprintf("precondition of %s: %s", name, cl.Src), pos, cl.Props)
 				}
 			}
 		}
@@ -404,7 +404,7 @@ func (f *Frame) applyContract(fc *FuncContract, name string, fn *ssa.Function, s
 				lbl = fmt.Sprint(k + 1)
 			}
 			for _, g := range env.evalSplit(cl.Expr) {
-				e.oblige("pre", short+"."+lbl, f.pc, g, fmt.Sprintf("precondition of %s: %s", name, cl.Src), pos, nil)
+				e.oblige("pre", short+"."+lbl, f.pc, g, fmt.Sprintf("precondition of %s: %s", name, cl.Src), pos, cl.Props)
 			}
 		}
 	}
